@@ -1,5 +1,6 @@
 """C16 — statement parsing is compositional: the statement-position entry points agree."""
 from kernel import *
+from sym import SymExec
 import grammar_run
 from gram import *
 
@@ -21,6 +22,8 @@ def run(prog, R):
     R.floor("dispatch probes", len(probes), 150)
     by_first = {}
     for pr in probes:
+        if len(pr) == 3 and pr[2] == "~SEMICOLON":
+            continue
         a, b = G.dispatch.get((ITEM, pr)), G.dispatch.get((STMT, pr))
         if a is None or b is None:
             R.ob("C16.1-dispatch", " ".join(pr), False, "", "probe missing for one entry point")
@@ -39,6 +42,22 @@ def run(prog, R):
         ok_d = not ((must1 and can2) or (must2 and can1))
         R.ob("C16.1-diagnostic-agreement", " ".join(pr), ok_d, prog.body(ITEM).at,
              f"window `{' '.join(pr)}`: item outcomes (consumed, error) {a['outs']} vs stmt {b['outs']}: one entry point always reports a diagnostic where the other can parse cleanly" if not ok_d else "agree")
+    # ---- C16.1 what follows a statement's terminator does not decide whether the statement is accepted: a one-token
+    # statement `k ;` that `stmt` can parse without a diagnostic when anything but `;` follows is also parsed without
+    # a diagnostic when an empty statement `;` follows (`break; ;`): both parts are clean on their own
+    nfol = 0
+    for pr in probes:
+        if len(pr) == 3 and pr[2] == "~SEMICOLON":
+            a_, b_ = G.dispatch.get((STMT, pr)), G.dispatch.get((STMT, (pr[0], "SEMICOLON", "SEMICOLON")))
+            if a_ is None or b_ is None:
+                continue
+            nfol += 1
+            clean_other = any(c_ and not e_ for (c_, e_) in a_["outs"])
+            clean_semi = any(c_ and not e_ for (c_, e_) in b_["outs"])
+            okf = not (clean_other and not clean_semi)
+            R.ob("C16.1-follower-independent", pr[0], okf, prog.body(STMT).at,
+                 "agree" if okf else f"`{pr[0]} ;` is parsed cleanly by stmt when something other than `;` follows ({a_['outs']}) but always with a diagnostic when an empty statement follows ({b_['outs']}): the sequence of two clean statements is not clean")
+    R.floor("follower probes", nfol, 80)
     # ---- C16.2 every statement loop uses these entry points
     cg = prog.callgraph()
     callers = {f: sorted(k for k, v in cg.items() if f in v) for f in (ITEM, STMT)}
@@ -78,12 +97,42 @@ def run(prog, R):
              "next token after the block statement is " + k if not bad else
              f"`{{ }} {k} ..` in statement position: some outcome leaves {bad[:2]} as the next token instead of {k}: the token after a statement-level block is consumed as part of the same statement (statements merge)")
     R.floor("block statement probes", nb, 80)
+    # ---- C16.3 a compound statement ends with its body: in every function that parses a body through
+    # block_or_statement (if / while / for and helpers), the last token-consuming call on every path is that body (or
+    # a function of the same family, `else if`).  Anything consumed after the body - a `;`, say - belongs to the next
+    # statement when the statement is parsed on its own and to this one in a sequence.
+    BOS = "oq3_parser::grammar::items::block_or_statement"
+    NONCONS = ("Parser::at", "Parser::at_ts", "Parser::nth", "Parser::nth_at", "Parser::current", "Parser::error", "Parser::start", "Marker::complete", "Marker::abandon",
+               "CompletedMarker::precede", "CompletedMarker::extend_to")
+    fam = sorted(k for k, v in cg.items() if BOS in v and "{closure" not in k)
+    R.floor("functions that parse a body with block_or_statement", len(fam), 1)
+    for f in fam:
+        fb = prog.body(f)
+        bad, np_ = [], 0
+        for p_ in SymExec(prog, fb, max_visits=1, max_paths=2000).paths():
+            if "__diverged__" in p_.env:
+                continue
+            cons = []
+            for nm, a_, bb_ in p_.calls:
+                if not (nm.startswith("oq3_parser::") or nm.startswith("<oq3_parser::")) or nm.endswith(NONCONS):
+                    continue
+                if nm.endswith(("Parser::eat", "Parser::expect")) and any(c_[0] == "switch" and isinstance(c_[1], tuple) and c_[1][0] == "call" and c_[1][1] == nm and c_[4] is not None and c_[2] == ("eq", 0) and c_[1][3:] and c_[1][3] == bb_ for c_ in p_.conds):
+                    continue        # this eat/expect returned false on the path: nothing consumed
+                cons.append(nm)
+            if BOS not in cons and not any(x in fam for x in cons):
+                continue
+            np_ += 1
+            if cons[-1] != BOS and cons[-1] not in fam:
+                bad.append(short(cons[-1]))
+        R.ob("C16.3-compound-ends-with-body", short(f), np_ > 0 and not bad, fb.at,
+             f"{np_} path(s): the body is the last thing consumed" if np_ > 0 and not bad else
+             f"after the body {short(f)} goes on to consume through {sorted(set(bad))}: the token after a loop / if body (e.g. an empty statement `;`) becomes part of this statement in a sequence but not when the statement is parsed on its own")
     # ---- C16.6 the text of a statement node does not depend on the trivia before it: the tree builder attaches
     # leading trivia to a node only for kinds n_attached_trivias answers non-zero for; for every kind the grammar
     # completes the answer is the constant 0 (a comment ending the previous line would otherwise become part of the
     # next statement's text in a sequence, but not when that statement is parsed on its own)
     import shapes
-    from sym import SymExec, deep_strip
+    from sym import deep_strip
     SK = "oq3_parser::syntax_kind::syntax_kind_enum::SyntaxKind"
     nb_ = prog.body("oq3_parser::shortcuts::n_attached_trivias")
     kinds = set()
